@@ -310,11 +310,16 @@ func (e *scriptErr) Error() string { return fmt.Sprintf("scripted error %d", e.c
 // Unwrap makes some scripted errors wrap a context error (errors.Is(err, context.Canceled) holds for them although
 // they did not come from any context of the scenario): the library must report such an error like any other.
 func (e *scriptErr) Unwrap() error {
-	switch e.code % 3 {
+	// by code: errors that wrap a context error, the library's own end sentinel or its closed-pipe error, and plain ones
+	switch e.code % 5 {
 	case 0:
 		return context.Canceled
 	case 1:
 		return context.DeadlineExceeded
+	case 3:
+		return stream.End
+	case 4:
+		return stream.ErrClosedPipe
 	}
 	return nil
 }
